@@ -5,6 +5,7 @@ package c13
 import (
 	"fmt"
 	"reflect"
+	"runtime"
 	"runtime/debug"
 	"testing"
 
@@ -63,6 +64,7 @@ func runCase(c Case, r *runlog.R) error {
 	// a shallow copy keeps everything the struct referred to reachable, so that identities stay comparable
 	keep := reflect.New(target.Type().Elem())
 	keep.Elem().Set(target.Elem())
+	defer runtime.KeepAlive(keep)
 	before := fingerprintOf(target.Elem())
 
 	cfg, err := ucfg.NewFrom(c.Cfg.Go())
@@ -73,7 +75,6 @@ func runCase(c Case, r *runlog.R) error {
 	if panicked != nil {
 		return fmt.Errorf("%v\n%s", panicked, describe())
 	}
-	_ = keep
 
 	// what the case is about (independent of the outcome)
 	feats := map[string]bool{}
